@@ -192,6 +192,7 @@ func visitInstr(fr *frame, instr ssa.Instruction) continuation {
 	p := fr.i.path
 	p.step()
 	fr.curInstr = instr
+	p.lastFrame = fr
 	switch instr := instr.(type) {
 	case *ssa.DebugRef:
 		// no-op
@@ -555,6 +556,9 @@ func runFrame(fr *frame) {
 		}
 		fr.panicking = true
 		fr.panic = pv
+		if fr.i.path.panicStack == "" {
+			fr.i.path.panicStack = stackString(fr)
+		}
 		if fr.i.mode&EnableTracing != 0 {
 			fmt.Fprintf(os.Stderr, "Panicking: %T %v.\n", fr.panic, fr.panic)
 		}
@@ -624,6 +628,7 @@ func doRecover(caller *frame) value {
 		caller.caller.panicking = false
 		p := caller.caller.panic
 		caller.caller.panic = nil
+		caller.i.path.panicStack = ""
 
 		switch p := p.(type) {
 		case targetPanic:
@@ -660,4 +665,25 @@ func mustDeref(t types.Type) types.Type {
 		return p.Elem()
 	}
 	panic(fmt.Sprintf("mustDeref(%s): not a pointer", t))
+}
+
+// stackString renders the target-level call stack of fr (innermost first).
+func stackString(fr *frame) string {
+	var sb strings.Builder
+	n := 0
+	for f := fr; f != nil && n < 12; f = f.caller {
+		if f.fn == nil {
+			continue
+		}
+		pos := ""
+		if f.curInstr != nil {
+			p := f.fn.Prog.Fset.Position(f.curInstr.Pos())
+			if p.IsValid() {
+				pos = fmt.Sprintf(" %s:%d", p.Filename, p.Line)
+			}
+		}
+		fmt.Fprintf(&sb, "%s%s; ", f.fn.String(), pos)
+		n++
+	}
+	return sb.String()
 }
